@@ -437,6 +437,17 @@ const SPECIALS: &[(&str, Option<&str>)] = &[
     ("\"%g %g %g %g\" % [100000, 1000000, 0.0001, 0.00001]", Some("100000 1e+06 0.0001 1e-05")),
     ("\"%#g\" % 1", Some("1.00000")),
     ("\"%5%|\" % []", None),
+    // %c takes exactly one character
+    ("\"%c\" % \"\"", None),
+    ("std.format(\"[%3c]\", [\"\"])", None),
+    ("\"%(k)c\" % {k: \"\"}", None),
+    ("std.format(\"%d%c%s\", [1, \"\", \"x\"])", None),
+    ("\"%c\" % \"éé\"", None),
+    ("\"%c|%c|%c\" % [\"é\", 233, \"😀\"]", Some("é|é|😀")),
+    ("\"%c\" % [[]]", None),
+    ("\"%c\" % null", None),
+    ("\"%c\" % 1114112", None),
+    ("\"%c\" % 55296", None),
     // a negative `*` width is the `-` flag plus the positive width (C and Python agree)
     ("\"%*d|\" % [-5, 3]", Some("3    |")),
     ("\"%*s|%*x|\" % [-3, \"a\", -4, 255]", Some("a  |ff  |")),
